@@ -61,56 +61,72 @@ def isScanRoot (st : Index) (f : Path) : Bool :=
   st.editable.any (fun e => pathStartsWith f e.1) ||
   st.pluginFiles.contains f
 
+/-- the work state of one round of the import scan -/
+structure ScanAcc where
+  /-- modules met for the first time (neither processed nor cached): analysed after the round -/
+  news : List Path
+  /-- cached modules newly marked as plugin files: re-analysed at the very end -/
+  re : List Path
+  st : Index
+  /-- `processed_files` -/
+  processed : List Path
+  /-- files walked earlier that became plugin files in this round: walked again in the next one -/
+  rewalk : List Path
+
 /-- one resolved import target: optionally mark it as a plugin file (queueing it for re-analysis
-    when it is already cached), and queue it as a new module when it is neither processed nor
-    cached.  `acc` = (new modules, modules to re-analyse as plugin, state). -/
-def importStep (processed : List Path) (mark : Bool) (acc : List Path × List Path × Index)
-    (target : Path) : List Path × List Path × Index :=
-  let news := acc.1
-  let re := acc.2.1
-  let st := acc.2.2
-  let marking := mark && !st.pluginFiles.contains target
-  let st' := if marking then { st with pluginFiles := st.pluginFiles ++ [target] } else st
-  let re' := if marking && ahas st.cache target && !re.contains target then re ++ [target] else re
-  let news' := if !processed.contains target && !ahas st.cache target && !news.contains target
-    then news ++ [target] else news
-  (news', re', st')
+    when it is already cached, and for another walk when its imports were walked before it became a
+    plugin file), and queue it as a new module when it is neither processed nor cached. -/
+def importStep (mark : Bool) (acc : ScanAcc) (target : Path) : ScanAcc :=
+  let marking := mark && !acc.st.pluginFiles.contains target
+  let st' := if marking then { acc.st with pluginFiles := acc.st.pluginFiles ++ [target] } else acc.st
+  let re' := if marking && ahas acc.st.cache target && !acc.re.contains target then acc.re ++ [target] else acc.re
+  let again := marking && acc.processed.contains target
+  let processed' := if again then acc.processed.filter (fun g => g != target) else acc.processed
+  let rewalk' := if again && !acc.rewalk.contains target then acc.rewalk ++ [target] else acc.rewalk
+  let news' := if !processed'.contains target && !ahas acc.st.cache target && !acc.news.contains target
+    then acc.news ++ [target] else acc.news
+  { news := news', re := re', st := st', processed := processed', rewalk := rewalk' }
 
 /-- one file of one iteration of the import scan: star imports propagate plugin status from a
     plugin file, explicit imports do not, `pytest_plugins` entries do. -/
-def importScanFile (st : Index) (processed : List Path) (f : Path)
-    (acc : List Path × List Path × Index) : List Path × List Path × Index :=
-  match acc.2.2.content f with
+def importScanFile (f : Path) (acc : ScanAcc) : ScanAcc :=
+  match acc.st.content f with
   | some { parsed := some fr, .. } =>
-    let importerIsPlugin := acc.2.2.pluginFiles.contains f
+    let importerIsPlugin := acc.st.pluginFiles.contains f
     let acc := fr.imports.foldl (fun acc imp =>
-      match acc.2.2.resolveModule imp.modulePath f with
-      | some t => importStep processed (importerIsPlugin && imp.isStar) acc t
+      match acc.st.resolveModule imp.modulePath f with
+      | some t => importStep (importerIsPlugin && imp.isStar) acc t
       | none => acc) acc
     fr.plugins.foldl (fun acc m =>
-      match acc.2.2.resolveModule m f with
-      | some t => importStep processed importerIsPlugin acc t
+      match acc.st.resolveModule m f with
+      | some t => importStep importerIsPlugin acc t
       | none => acc) acc
   | _ => acc
 
-/-- `scan_imported_fixture_modules`: iterate until no new module turns up (`fuel` = number of
-    files on disk + 1 bounds the number of iterations: each one analyses at least one new file). -/
+/-- one file of one round: skipped when already processed -/
+def roundStep (acc : ScanAcc) (f : Path) : ScanAcc :=
+  if acc.processed.contains f then acc else
+  importScanFile f { acc with processed := acc.processed ++ [f] }
+
+/-- analysis of one newly found module (`analyze_file_fresh` when it is readable) -/
+def analyzeNew (pfx : Path) (st : Index) (m : Path) : Index :=
+  match alookup st.disk m with
+  | some v => if readable v then (analyze pfx false st m v).1 else st
+  | none => st
+
+/-- `scan_imported_fixture_modules`: iterate until a round finds neither a new module nor a file
+    to walk again.  `fuel` bounds the number of rounds; `C12_import_scan_fuel_irrelevant` shows
+    that three times the number of files, plus one, is always enough. -/
 def importScan (pfx : Path) : Nat → Index → List Path → List Path → List Path → Index × List Path
   | 0, st, _, _, re => (st, re)
   | fuel + 1, st, toCheck, processed, re =>
     if toCheck.isEmpty then (st, re) else
-    let (news, re, st, processed) := toCheck.foldl (fun (acc : List Path × List Path × Index × List Path) f =>
-      let (news, re, st, processed) := acc
-      if processed.contains f then acc else
-      let processed := processed ++ [f]
-      let (news, re, st) := importScanFile st processed f (news, re, st)
-      (news, re, st, processed)) ([], re, st, processed)
-    if news.isEmpty then (st, re) else
-    let st := news.foldl (fun st m =>
-      match alookup st.disk m with
-      | some v => if readable v then (analyze pfx false st m v).1 else st
-      | none => st) st
-    importScan pfx fuel st news processed re
+    let acc := toCheck.foldl roundStep { news := [], re := re, st := st, processed := processed, rewalk := [] }
+    if acc.news.isEmpty && acc.rewalk.isEmpty then (acc.st, acc.re) else
+    importScan pfx fuel (acc.news.foldl (analyzeNew pfx) acc.st) (acc.news ++ acc.rewalk) acc.processed acc.re
+
+/-- enough rounds for any import graph over the files the index knows -/
+def importScanFuel (st : Index) : Nat := 3 * (st.disk.length + st.cache.length) + 1
 
 /-- arrange the order-carrying vectors by a file ranking (stable within a file) -/
 def insertByRank {α} (rank : Path → Nat) (file : α → Path) (x : α) : List α → List α
@@ -142,7 +158,7 @@ def scanNoVenv (pfx : Path) (excluded : Path → Bool) (seqD seqU : String → L
   let st := { st with workspaceRoot := some [] }
   let st := scanPhase2 pfx excluded st
   let roots := (st.cache.map (·.1)).filter st.isScanRoot
-  let (st, re) := importScan pfx (st.disk.length + 1) st roots [] []
+  let (st, re) := importScan pfx (importScanFuel st) st roots [] []
   let st := re.foldl (fun st m =>
     match st.content m with
     | some v => (analyze pfx true st m v).1
